@@ -170,6 +170,11 @@ func NewEng(t *rapid.T, cfg EngCfg) *Eng {
 		e.w.AddClient(c, "secret-"+id)
 		e.clients = append(e.clients, id)
 	}
+	// a client whose id differs from A's only in letter case: client ids are case-sensitive, it is a stranger to A's grants
+	la := stdClient("a", false)
+	la.Secret = e.w.HashSecret("secret-a")
+	e.w.AddClient(la, "secret-a")
+	e.clients = append(e.clients, "a")
 	p := stdClient("P", true)
 	p.TokenEndpointAuthMethod = "none"
 	p.GrantTypes = []string{"authorization_code", "refresh_token", "implicit", "urn:ietf:params:oauth:grant-type:device_code"}
